@@ -14,8 +14,8 @@ def items(tier):
         yield ("case", c)
     for c in syncu.parallel_cases(tier):
         yield ("parallel", c)
-    for c, bound in syncu.thread_cases(tier):
-        yield ("tparallel", c, bound)
+    for c, bound, reads in syncu.thread_cases(tier):
+        yield ("tparallel", c, bound, reads)
 
 
 def run(ctx):
